@@ -39,7 +39,8 @@ import (
 // ---- alphabet -------------------------------------------------------------
 
 var tags = []string{"", "tagA", "tagB"}
-var addrs = []string{"<10.0.0.1:9618>", "<10.0.0.2:9618?sock=collector>"}
+// two daemons behind one shared port: the addresses differ only in the sock= name
+var addrs = []string{"<10.0.0.1:9618?sock=schedd_1234_5678>", "<10.0.0.1:9618?sock=startd_1234_9999>"}
 var cmds = []int{421, 60007, 9}
 
 // commands the server declares valid for a session established for cmds[i]
@@ -1105,7 +1106,7 @@ func gen(c *core.Ctx) error {
 
 	// the real key strings are pairwise distinct on comma-free triples (key_inj on the real code)
 	{
-		cf := []string{"", "t", "ta", "g", "ag", "{x}", "<h:1>", "<h:1?sock=a>", "tagA", "tagB", "<", ">}", "{", "<10.0.0.1:9618>"}
+		cf := []string{"", "t", "ta", "g", "ag", "{x}", "<h:1>", "<h:1?sock=a>", "<h:1?sock=b>", "<h:1?ccbid=9#1>", "tagA", "tagB", "<", ">}", "{", "<10.0.0.1:9618>"}
 		seenKey := map[string][3]string{}
 		for _, t := range cf {
 			for _, a := range cf {
